@@ -394,17 +394,18 @@ class FunctionReference:
             if memento_fn is not None and memento_fn.fn is not None
             else self._module + ":" + self._function_name
         )
-        if version is not None:
-            qualified_name += "#" + version
+        # The cluster separator is looked for in the name proper: a version string may contain
+        # "::" itself
+        version_suffix = "#" + version if version is not None else ""
         if cluster_name is not None and "::" not in qualified_name:
             qualified_name = cluster_name + "::" + qualified_name
-        self._qualified_name = qualified_name
+        self._qualified_name = qualified_name + version_suffix
 
         self._qualified_name_without_cluster = (
-            self.qualified_name
-            if "::" not in self.qualified_name
-            else self.qualified_name[self.qualified_name.find("::") + 2 :]
-        )
+            qualified_name
+            if "::" not in qualified_name
+            else qualified_name[qualified_name.find("::") + 2 :]
+        ) + version_suffix
 
         self.qualified_name_without_version = self.module + ":" + self.function_name
         if cluster_name is not None:
